@@ -308,7 +308,11 @@ pub fn gen_history(
         let base = rng.pick(pool).clone();
         // a base type that already is an option is never declared optional on top
         let optional = !matches!(base, Ty::Opt(_)) && rng.chance(1, 5);
-        HField { name: format!("f{counter}"), base, optional }
+        // one field in six is declared with a raw identifier (`r#f3`): its name — in `#[evolution(..)]` steps, in the
+        // header of removed / transient names — is the identifier as written, prefix included (no draw: the rest of
+        // the history does not depend on the spelling)
+        let raw = (crate::rng::fnv64_str(id) ^ (counter as u64).wrapping_mul(0x9E37_79B9)) % 6 == 0;
+        HField { name: if raw { format!("r#f{counter}") } else { format!("f{counter}") }, base, optional }
     };
     // scripts starting with 'W' use a wide initial record: made-optional positions far from 0
     let n_init = if script.map(|s| s.starts_with('W')).unwrap_or(false) { 18 + rng.below(6) as usize } else { 1 + rng.below(4) as usize };
